@@ -119,6 +119,9 @@ class World:
   def store(self, interp, target_value, index, value, node):
     return NotImplemented
 
+  def setattr(self, interp, obj, attr, value, node):
+    return NotImplemented
+
   def compare(self, interp, op, left, right, node):
     return NotImplemented
 
@@ -362,6 +365,12 @@ class Interp:
       if r is NotImplemented:
         raise Undecided('store into %s' % ast.unparse(t))
       return
+    if isinstance(t, ast.Attribute):
+      base = self.ev(t.value)
+      r = self.world.setattr(self, base, t.attr, v, node)
+      if r is NotImplemented:
+        raise Undecided('attribute store %s' % ast.unparse(t))
+      return
     raise Undecided('assignment target %s' % ast.unparse(t))
 
   # ------------------------------------------------------------ expressions
@@ -526,6 +535,11 @@ class Interp:
       return tuple(self.ev(x) for x in e.elts)
     if isinstance(e, ast.List):
       return [self.ev(x) for x in e.elts]
+    if isinstance(e, ast.Set):
+      try:
+        return set(self.ev(x) for x in e.elts)
+      except TypeError:
+        raise Undecided('unhashable set element')
     if isinstance(e, ast.JoinedStr):
       return '<message>'
     if isinstance(e, ast.Dict):
@@ -847,6 +861,13 @@ class Interp:
       return self.truth(args[0], node)
     if name == 'isinstance':
       raise Undecided('isinstance')
+    if name == 'callable' and len(args) == 1:
+      if args[0] is None or isinstance(args[0], (int, str, list, tuple, dict,
+                                                  Arr, Fraction)):
+        return False
+      raise Undecided('callable(%r)' % (args[0],))
+    if name == 'type' and len(args) == 1:
+      return Lib('type-of')
     if name == 'print':
       return None
     if name == 'dict' and not args:
@@ -995,7 +1016,7 @@ class Interp:
     return NotImplemented
 
   def method(self, recv, attr, args, kwargs, node):
-    if isinstance(recv, str) and attr == 'format':
+    if isinstance(recv, str) and attr in ('format', 'join'):
       return '<message>'
     if isinstance(recv, list):
       if attr == 'append' and len(args) == 1:
